@@ -253,6 +253,9 @@ def run(ctx):
         else:
             vlib.model_check(ctx, "stream", "StreamsMacro", env=env, workers=1, timeout=3000, xmx="6g")
         return kind, g, time.time() - t0
+    # ---- TLC: the two lock-free hand-offs at atomic granularity (design-level race models; safety + termination under fairness)
+    for mod in ("StopImmediately", "TakeUntil"):
+        vlib.model_check(ctx, "stream", mod, workers=1, timeout=600)
     par = max(1, min(4, vlib.NCPU // 2))
     with concurrent.futures.ThreadPoolExecutor(max_workers=par) as ex:
         for kind, g, secs in ex.map(tlc_job, jobs):
